@@ -29,7 +29,7 @@ from ..astutil import (text, access_path, calls_in, func_params, stmts_of, is_co
 from ..loader import where, AnalysisError
 from ..paths import Enumerator
 from .. import poly
-from ..terms import Terms, PathEnv, specialise
+from ..terms import Terms, PathEnv, specialise, value_term
 
 VERIFIED_OPS = {}     # class name -> True when R2 proved it, False when R2 found a violation, absent when undecided
 KNOWN_OPS = ("PmMutator", "UniformMutator", "NonUniformMutation", "SimulatedBinaryCrossover")
@@ -287,11 +287,12 @@ def r3_generators(ctx, repo):
     if not (is_const(dflt.get("distribution")) and const_value(dflt["distribution"]) == "uniform"):
         ctx.violated("R3", C, where(mod, fn), "the default distribution is not 'uniform' (the normal draw is unbounded)", key="default-distribution")
     T = Terms(fn)
-    if len(T.returns) != 1 or T.returns[0][1] is None:
+    vt = value_term(fn)
+    if vt is None:
         ctx.inconclusive("R3", C, where(mod, fn), "single returned value not found", key="unit-affine")
         return
     # the value returned for a real-valued uniform draw, written over the parameters
-    spec = specialise(T.returns[0][1], {"distribution": "uniform", "p_type": "real"})
+    spec = specialise(vt, {"distribution": "uniform", "p_type": "real"})
     draws = [c for c in ast.walk(spec) if isinstance(c, ast.Call) and access_path(c.func) in ("random", "random.random")]
     anchor = fn
     for s_ in stmts_of(fn):
@@ -460,8 +461,13 @@ def r3_generators(ctx, repo):
     fn = doe.functions.get("construct_df")
     C = "doe.construct_df"
     fl = func_params(fn)[1]
-    apps = [c for c in calls_in(fn) if method_call(c) and method_call(c)[1] == "append" and c.args and isinstance(c.args[0], ast.Subscript)]
-    ok = any(isinstance(c.args[0].value, ast.Subscript) and access_path(c.args[0].value.value) == fl for c in apps)
+    from ..terms import alpha, fuse
+    ok = False
+    for _st, t_ in Terms(fn).returns:
+        ct = alpha(fuse(t_)) if t_ is not None else None
+        if isinstance(ct, ast.ListComp) and isinstance(ct.elt, ast.ListComp):
+            e_ = ct.elt.elt
+            ok = isinstance(e_, ast.Subscript) and isinstance(e_.value, ast.Subscript) and access_path(e_.value.value) == fl
     ctx.check3(True if ok else None, "R3", C, where(doe, fn), "design values are selected from the level lists (factor_lists[index][code]), never computed",
                unknown_detail="construct_df shape not recognised", key="select-only")
     # column i of a design must belong to parameter i: the builders collect the level lists in the dictionary's
